@@ -155,6 +155,11 @@ def run_property(prop, sp, tier, seed, replay):
         if ok_r and os.path.exists(os.path.join(work, "cases.txt")):
             run_runner(os.path.join(work, "cases.txt"), os.path.join(work, "model.txt"))
             diffs = diff_lines(os.path.join(work, "model.txt"), os.path.join(work, "impl.txt"))
+            # advisory sections: recorded, never a broken correspondence by themselves
+            soft = set(sp.get("soft_sections", []))
+            if soft:
+                st["advisory_section_mismatches"] = sum(1 for _, ns in diffs if set(ns) <= soft)
+                diffs = [(k, [n for n in ns if n not in soft]) for k, ns in diffs if not set(ns) <= soft]
             for fn in sp.get("post", []):
                 for kind, k, detail in fn(work, st):
                     broken.append((kind, f"case {k}: {detail}"))
@@ -429,6 +434,17 @@ spec("C16",
      classify=classify_default,
      assumptions=["rotation matrices come from nalgebra::Rotation3::new (passed to the model as data; compared with Rodrigues' formula by the oracle)",
                   "Blend is only checked where it must equal the union (radius 0 or shapes further apart than the radius)"],
+     )
+
+spec("C17",
+     cmd="c17", count=dict(quick=2500, thorough=150000),
+     vo_targets=["props/C17.vo", "theories/ScriptGenCheck.vo"],
+     soft_sections=["cls"],
+     level="proof",
+     rule="first the call-form oracle on the engine alone: for each of the 26 shapes (3 rounds of random field values) the map form must agree with the chained / transform form (defaults omitted), reducers with 1..8 individual trees and with an array must agree with the array in a map, and the positional form in a shuffled order must agree with the map form; then scripts from the grammar: x y z, integer / float literals, + - * / % and unary minus with the number on either side, min max compare mix and or atan2 and the 15 unary functions in call and method spelling, remap with 2 / 3 axes, arrays of trees added to trees, comparisons (6% of cases), shape constructors chosen uniformly from the reflection table with each defaulted field present 60% of the time and a required field missing 4% of the time, in map form (keys shuffled, 4% an unknown key), chained transform form, or positional (field order or shuffled, call or method on the first argument); values: ints / floats, arrays or vecN(..) for vectors (vec3 from 2 or 3 components), strings / bare axes / axis-aligned arrays for axes, names or plane(axis, n) for planes, nested up to depth 4; rotation matrices for every axis / angle a rotate call can use are computed with nalgebra and passed to the model as data; the tree of engine().eval::<Tree>(script), or the fact that it is an error, must equal the Coq model's (the error class is compared too but only recorded: in a script with several faulty sub-expressions the one reported first depends on rhai's argument evaluation order); a 16-script corpus of documented forms and predicted surprises runs first; distinct_nontrivial = distinct scripts",
+     classify=classify_default,
+     assumptions=["statements, let, loops, user functions, f64 libm on numbers and string formatting are outside the model (it answers 'outside the model' and the case is not compared)",
+                  "the script text is printed by the harness from the same AST whose wire form the model parses; the model's own printer is proved to produce source for that AST but is not what the engine is fed"],
      )
 
 spec("C18",
